@@ -342,6 +342,12 @@ var pinned = []pin{
 		p.set("b", &b)
 		p.js(`b.reverse()`)
 		p.check(b[0].Field == 3 && b[2].Field == 1, "reverse(): Go b = [%d %d %d], expected [3 2 1]", b[0].Field, b[1].Field, b[2].Field)
+		c := []MyF32{1, 2, 3}
+		d := []map[string]int{{"k": 1}, {"k": 2}, {"k": 3}}
+		p.set("c", &c)
+		p.set("d", &d)
+		p.js(`c.reverse(); d.reverse()`)
+		p.check(c[0] == 3 && c[2] == 1 && d[0]["k"] == 3 && d[2]["k"] == 1, "reverse(): Go c = %v d = %v, expected [3 2 1] / k: 3 2 1", c, d)
 	}},
 }
 
